@@ -178,7 +178,7 @@ def both_optimal(case, base, got):
                 nan_pos = "alone" if not idx else len(groups)
             if idx:
                 groups.append(idx)
-        ok, _why, _info = refcarver.judge(obs["base"], obs["nan"], None, None, cfg, (groups, nan_pos))
+        ok, _why, _info = refcarver.judge(obs["base"], obs["nan"], obs.get("dev_base"), obs.get("dev_nan"), cfg, (groups, nan_pos))
         if not ok:
             return False
     return True
